@@ -110,6 +110,28 @@ def main_tables():
     n = base()
     pp.create_load(n, 1, 0., 0.); pp.create_sgen(n, 4, 5., 1., in_service=False); pp.create_load(n, 3, 4., 1., in_service=False)
     cmp("zero-power and out-of-service elements added", n)
+    # calculate_voltage_angles="auto" (documented: True iff a bus above 70 kV is connected to a line): must not depend on the orientation of the
+    # lines or on the row of the high-voltage bus
+    def hv(swap, hv_first):
+        net = pp.create_empty_network()
+        order = [1, 2, 3, 0] if hv_first else [0, 1, 2, 3]
+        vn = {0: 20., 1: 110., 2: 110., 3: 110.}
+        for i in order:
+            pp.create_bus(net, vn[i], index=i)
+        pp.create_ext_grid(net, 1)
+        pp.create_line_from_parameters(net, 1, 2, 20., 0.06, 0.3, 10., 1.)
+        pp.create_line_from_parameters(net, *((3, 2) if swap else (2, 3)), 20., 0.06, 0.3, 10., 1.)
+        pp.create_transformer_from_parameters(net, 3, 0, sn_mva=25., vn_hv_kv=110., vn_lv_kv=20., vkr_percent=0.4, vk_percent=10., pfe_kw=10.,
+                                              i0_percent=0.05, shift_degree=150.)
+        pp.create_load(net, 0, 4., 1.)
+        pp.runpp(net, calculate_voltage_angles="auto")
+        return net.res_bus.va_degree.sort_index().values
+    ref_va = hv(False, False)
+    for swap, hv_first in ((True, False), (False, True), (True, True)):
+        va = hv(swap, hv_first)
+        if not np.allclose(va, ref_va, atol=1e-6):
+            fails.append(f"calculate_voltage_angles='auto': with {'the second 110 kV line entered with swapped ends' if swap else 'the same lines'}"
+                         f"{' and the 110 kV buses as first rows' if hv_first else ''} the bus angles are {np.round(va, 3)}, reference {np.round(ref_va, 3)}")
     for f in fails:
         print("REPRODUCED:", f)
     if not fails:
